@@ -189,22 +189,32 @@ const uint8_t B5[5] = {0xA5, 0x0F, 0xF0, 0x81, 0x7E};
 
 bool verify_bits_view(vf::Run& r, const std::string& form, const BitReader& br0, const Bits& m, size_t c, const std::function<std::string()>& d) {
   const size_t n = m.size();
-  auto bad = [&](const char* kind, const std::string& what) {
-    r.fail(form + ":" + kind, [&] { return d() + vf::fmt(" (expected view: %zu bits %s, cursor %zu) :: ", n, bits_str(m).c_str(), c) + what; });
+  // a wrong view is filed under the form that built it, a right view read wrongly under the accessor
+  auto bad = [&](const std::string& key, const std::string& what) {
+    r.fail(key, [&] { return d() + vf::fmt(" (expected view: %zu bits %s, cursor %zu) :: ", n, bits_str(m).c_str(), c) + what; });
     return false;
   };
   try {
     BitReader br = br0;
     if (br.size() != n || br.where() != c || br.eof() != (c >= n) || (c <= n && br.remaining() != n - c))
-      return bad("state", vf::fmt("size()=%zu where()=%zu eof()=%d remaining()=%zu", br.size(), br.where(), (int)br.eof(), br.remaining()));
+      return bad(form + ":state", vf::fmt("size()=%zu where()=%zu eof()=%d remaining()=%zu", br.size(), br.where(), (int)br.eof(), br.remaining()));
+    // the bits themselves, one by one: a view over the wrong bytes is the form's fault
+    for (size_t off = 0; off < n; off++)
+      if (br.pread(off, 1) != m[off]) {
+        // ... unless single-bit reads are broken everywhere: the first bit of a known-good reader tells
+        static const uint8_t probe[1] = {0x80};
+        BitReader pr(probe, 8);
+        if (pr.pread(0, 1) == 1 && pr.pread(1, 1) == 0) return bad(form + ":state", vf::fmt("bit %zu of the view reads %llu, expected %u", off, (unsigned long long)br.pread(off, 1), m[off]));
+        break;
+      }
     for (size_t off = 0; off <= n; off++) {
       for (size_t sz = 0; sz <= 64 && off + sz <= n; sz++) {
         uint64_t want = bits_value(m, off, sz), got = br.pread(off, (uint8_t)sz);
-        if (got != want) return bad("value", vf::fmt("pread(%zu, %zu) returned 0x%llX, model 0x%llX", off, sz, (unsigned long long)got, (unsigned long long)want));
+        if (got != want) return bad("BitReader_pread:value", vf::fmt("pread(%zu, %zu) returned 0x%llX, model 0x%llX", off, sz, (unsigned long long)got, (unsigned long long)want));
       }
-      if (off < n && br.pread(off) != m[off]) return bad("value", vf::fmt("pread(%zu) with the defaulted size returned the wrong bit", off));
+      if (off < n && br.pread(off) != m[off]) return bad("BitReader_pread:value", vf::fmt("pread(%zu) with the defaulted size returned the wrong bit", off));
     }
-    if (br.where() != c) return bad("cursor", vf::fmt("pread moved the cursor to %zu", br.where()));
+    if (br.where() != c) return bad("BitReader_pread:advance", vf::fmt("pread moved the cursor to %zu", br.where()));
     if (c <= n) {
       for (size_t sz : {(size_t)0, (size_t)1, (size_t)3, (size_t)8, (size_t)13, std::min<size_t>(64, n - c)}) {
         if (sz > n - c) continue;
@@ -213,8 +223,8 @@ bool verify_bits_view(vf::Run& r, const std::string& form, const BitReader& br0,
         uint64_t g0 = q.read((uint8_t)sz, false);
         size_t w0 = q.where();
         uint64_t g1 = q.read((uint8_t)sz);
-        if (g0 != want || g1 != want) return bad("value", vf::fmt("read(%zu) at the cursor returned 0x%llX (advance=false) / 0x%llX, model 0x%llX", sz, (unsigned long long)g0, (unsigned long long)g1, (unsigned long long)want));
-        if (w0 != c || q.where() != c + sz) return bad("cursor", vf::fmt("read(%zu): cursor %zu after advance=false, %zu after advance=true", sz, w0, q.where()));
+        if (g0 != want || g1 != want) return bad("BitReader_read:value", vf::fmt("read(%zu) at the cursor returned 0x%llX (advance=false) / 0x%llX, model 0x%llX", sz, (unsigned long long)g0, (unsigned long long)g1, (unsigned long long)want));
+        if (w0 != c || q.where() != c + sz) return bad("BitReader_read:advance", vf::fmt("read(%zu): cursor %zu after advance=false, %zu after advance=true", sz, w0, q.where()));
       }
       // sequential pass with rotating chunk sizes
       static const size_t chunk[] = {1, 2, 3, 5, 8, 13, 21, 1, 64};
@@ -224,21 +234,21 @@ bool verify_bits_view(vf::Run& r, const std::string& form, const BitReader& br0,
         size_t sz = std::min(chunk[j], n - pos);
         j = (j + 1) % 9;
         uint64_t want = bits_value(m, pos, sz), got = sz == 1 ? q.read() : q.read((uint8_t)sz);
-        if (got != want) return bad("value", vf::fmt("sequential read(%zu) at bit %zu returned 0x%llX, model 0x%llX", sz, pos, (unsigned long long)got, (unsigned long long)want));
+        if (got != want) return bad("BitReader_read:value", vf::fmt("sequential read(%zu) at bit %zu returned 0x%llX, model 0x%llX", sz, pos, (unsigned long long)got, (unsigned long long)want));
         pos += sz;
-        if (q.where() != pos || q.remaining() != n - pos || q.eof() != (pos >= n)) return bad("cursor", vf::fmt("after sequential read ending at bit %zu: where()=%zu remaining()=%zu eof()=%d", pos, q.where(), q.remaining(), (int)q.eof()));
+        if (q.where() != pos || q.remaining() != n - pos || q.eof() != (pos >= n)) return bad("BitReader_read:advance", vf::fmt("after sequential read ending at bit %zu: where()=%zu remaining()=%zu eof()=%d", pos, q.where(), q.remaining(), (int)q.eof()));
       }
       q.go(c);
-      if (q.where() != c) return bad("cursor", vf::fmt("go(%zu) left the cursor at %zu", c, q.where()));
-      if (c < n && q.read() != m[c]) return bad("value", "read() after go(cursor) returned a different bit");
+      if (q.where() != c) return bad("BitReader_go:advance", vf::fmt("go(%zu) left the cursor at %zu", c, q.where()));
+      if (c < n && q.read() != m[c]) return bad("BitReader_go:advance", "read() after go(cursor) returned a different bit");
       q.go(0);
       q.skip(n);
-      if (q.where() != n || !q.eof()) return bad("cursor", vf::fmt("go(0); skip(%zu) left the cursor at %zu", n, q.where()));
+      if (q.where() != n || !q.eof()) return bad("BitReader_skip:advance", vf::fmt("go(0); skip(%zu) left the cursor at %zu", n, q.where()));
     }
-    if (br0.where() != c || br0.size() != n) return bad("state", "the reader changed while copies of it were read");
+    if (br0.where() != c || br0.size() != n) return bad(form + ":state", "the reader changed while copies of it were read");
   } catch (const std::exception& e) {
     std::string what = e.what();
-    return bad("throws", "unexpected exception: " + what);
+    return bad(form + ":throws", "unexpected exception: " + what);
   }
   return true;
 }
@@ -250,7 +260,7 @@ struct BSt {
 
 }  // namespace
 
-VF_SECTION(bits_hist, 16, 16, 60) {
+VF_SECTION(bits_hist, 16, 16, 180) {
   auto alpha = build_bops();
   const size_t depth = r.thorough() ? 6 : 5;
   r.note("BitWriter histories");
@@ -280,7 +290,7 @@ VF_SECTION(bits_hist, 16, 16, 60) {
   r.bound = vf::fmt("all operation sequences of length 1..%zu over %zu BitWriter operations: write of the bit patterns 0, 1, 10111, 0000000, 11111111, 110100101; truncate to 0, size, size-1, size-3, size rounded down to a byte, one below that, size/2; reset(); copy-assignment from a writer holding 101; copy + write on the copy.  size() and str() (MSB-first, zero padding) compared after every operation; final content read back through BitReader bit by bit (defaulted arguments), 7 bits at a time over the std::string constructor (padding bits must be 0) and with one 64-bit pread", depth, alpha.size());
 }
 
-VF_SECTION(br_views, 8, 8, 60) {
+VF_SECTION(br_views, 8, 8, 180) {
   const size_t HUGE[] = {0x7FFFFFFFull, 0x80000000ull, 0xFFFFFFFFull, 0x100000000ull, 0x7FFFFFFFFFFFFFFFull, 0x8000000000000000ull, ~(size_t)0 - 1, ~(size_t)0};
   Exact b5(5);
   memcpy(b5.p, B5, 5);
@@ -475,7 +485,7 @@ VF_SECTION(br_views, 8, 8, 60) {
   r.bound = "a 40-bit content seen through BitReader(ptr, nbits[, offset]) for every nbits 0..40 x offset 0..nbits+1, BitReader(std::string[, offset]) and BitReader(shared_ptr<string>[, offset]) (caller's reference dropped) for every byte count 0..5 x bit offset, the default constructor, StringReader::sub_bits/subx_bits with one and two arguments (every offset/size 0..7 plus eight huge values), copy, assignment onto readers that already hold other data, truncate(n)/go(g)/skip(k) for every in-range value, go/skip/where with huge cursors; each view: size/where/remaining/eof, pread of every in-range (offset, size <= 64) pair and with the defaulted size, read at the cursor (advance false/true), a sequential pass with rotating chunk sizes, go/skip";
 }
 
-VF_SECTION(br_ops, 4, 4, 60) {
+VF_SECTION(br_ops, 4, 4, 180) {
   // navigation histories on the 40-bit content; out-of-range reads are not issued (BitReader does not check)
   struct Opn { const char* name; int t; size_t a; bool adv; };  // t: 0 go 1 skip 2 read 3 pread 4 truncate(size-a) 5 truncate(cursor) 6 read() defaulted
   static const Opn ops[] = {
